@@ -2,7 +2,7 @@
    are for ALL input strings; no lexer is assumed. *)
 From Coq Require Import List Ascii.
 Import ListNotations.
-From SM Require Import C15.Model C15.Proofs.
+From SM Require Import C15.Model C15.Proofs C15.Complete.
 
 (* What is tagged is a decimal floating literal of the grammar, immediately
    followed by a non-word character or the end of the input. *)
@@ -39,3 +39,29 @@ Print Assumptions C15_fix_tgmath_insert_only.
 Theorem C15_double_untouched : forall s, body P64 s = fix_tgmath s.
 Proof. exact body_P64. Qed.
 Print Assumptions C15_double_untouched.
+
+(* ---- completeness: EVERY floating literal is given the requested precision ----
+   The matcher recognises every literal of the grammar that is followed by a non-word character or the end of the
+   input (with C15_match_float_sound: exactly those) ... *)
+Theorem C15_match_float_complete : forall m t, FloatLit m -> boundary t = true -> match_float (m ++ t) = Some (m, t).
+Proof. exact match_float_complete. Qed.
+Print Assumptions C15_match_float_complete.
+
+(* ... and for every stream of tokens - floating literals, integers, words (identifiers, keywords), punctuation
+   characters incl. white space - in which a literal follows punctuation or starts the text and literals and
+   integers are followed by punctuation or end the text, tagging the rendered text yields the same stream with
+   every literal carrying the suffix and every other token unchanged. *)
+Theorem C15_tag_float_tokens : forall flag ts, Forall wf_tok ts -> sep true ts = true ->
+  tag_float flag (render ts) = render (map (tag_tok flag) ts).
+Proof. exact tag_float_tokens. Qed.
+Print Assumptions C15_tag_float_tokens.
+
+(* the premises are met by ordinary C text:  x1 = 1.5e3*(y + .25) - 7;  *)
+Example C15_tokens_example :
+  let ts := [Word ["x";"1"]; Punct " "; Punct "="; Punct " "; Lit ["1";".";"5";"e";"3"]; Punct "*"; Punct "(";
+             Word ["y"]; Punct " "; Punct "+"; Punct " "; Lit [".";"2";"5"]; Punct ")"; Punct " "; Punct "-"; Punct " ";
+             Int ["7"]; Punct ";"]%char in
+  sep true ts = true /\
+  tag_float ["f"%char] (render ts) =
+  ["x";"1";" ";"=";" ";"1";".";"5";"e";"3";"f";"*";"(";"y";" ";"+";" ";".";"2";"5";"f";")";" ";"-";" ";"7";";"]%char.
+Proof. vm_compute. split; reflexivity. Qed.
